@@ -327,7 +327,103 @@ func init() {
 		return e.pureCall(st, "strings.Contains", args, rt)
 	}
 	intrinsicsByName["strings.Split"] = func(e *Env, st *State, args []Val, rt types.Type, c *ssa.CallCommon) []Out {
-		return one(st, e.stringsSplit(st, args, rt))
+		return e.stringsSplit(st, args, rt)
+	}
+	hasAffix := func(suffix bool) intrinsic {
+		return func(e *Env, st *State, args []Val, rt types.Type, c *ssa.CallCommon) []Out {
+			a, b := e.byteSegs(st, args[0]), e.byteSegs(st, args[1])
+			// literal affix against a structured value with constant-length tail/head
+			if lit, ok := segsAllLit(b); ok {
+				if la, okA := segsConstLen(a); okA && la >= len(lit) {
+					var sub []Seg
+					var ok2 bool
+					if suffix {
+						sub, ok2 = segsSub(a, la-len(lit), la)
+					} else {
+						sub, ok2 = segsSub(a, 0, len(lit))
+					}
+					if ok2 {
+						if f, ok3 := e.segsEqual(sub, litSegs(lit), false); ok3 {
+							return one(st, boolVal(f))
+						}
+					}
+				}
+			}
+			name := "bytes_hasprefix"
+			if suffix {
+				name = "bytes_hassuffix"
+			}
+			return one(st, boolVal(e.D.uf(name, []string{sStr, sStr}, sBool, e.term(st, args[0]), e.term(st, args[1]))))
+		}
+	}
+	intrinsicsByName["bytes.HasSuffix"] = hasAffix(true)
+	intrinsicsByName["bytes.HasPrefix"] = hasAffix(false)
+	intrinsicsByName["strings.HasSuffix"] = hasAffix(true)
+	intrinsicsByName["strings.HasPrefix"] = hasAffix(false)
+	intrinsicsByName["strings.SplitN"] = func(e *Env, st *State, args []Val, rt types.Type, c *ssa.CallCommon) []Out {
+		// SplitN(s, sep, n): the first n-1 separators split, the rest stays in the last part
+		nv, _, okN := bvLitVal(e.term(st, args[2]))
+		sep, okS := e.litContent(e.term(st, args[1]))
+		s := args[0]
+		strT := types.Typ[types.String]
+		if okN && okS && len(sep) == 1 && s.Segs != nil && nv >= 2 && nv <= 16 {
+			var toks [][]Seg
+			cur := []Seg{}
+			exact := true
+			rest := false
+			for _, sg := range s.Segs {
+				if rest {
+					cur = append(cur, sg)
+					continue
+				}
+				switch sg.K {
+				case "lit":
+					lit := sg.Lit
+					for len(lit) > 0 {
+						j := strings.Index(lit, sep)
+						if j < 0 || rest {
+							cur = concatSegs(cur, litSegs(lit))
+							lit = ""
+							break
+						}
+						cur = concatSegs(cur, litSegs(lit[:j]))
+						toks = append(toks, cur)
+						cur = []Seg{}
+						lit = lit[j+1:]
+						if uint64(len(toks)) == nv-1 {
+							rest = true
+							cur = concatSegs(cur, litSegs(lit))
+							lit = ""
+						}
+					}
+				case "dec":
+					if sep[0] >= '0' && sep[0] <= '9' || (sg.Sgn && sep[0] == '-') {
+						exact = false
+					}
+					cur = append(cur, sg)
+				case "any":
+					if !(sep == "/" && e.knownNoSlash(st, sg.T)) {
+						exact = false
+					}
+					cur = append(cur, sg)
+				default:
+					exact = false
+					cur = append(cur, sg)
+				}
+			}
+			toks = append(toks, cur)
+			if exact && rest {
+				r := Val{K: kArr, Typ: rt, Sort: e.sortOfT(rt)}
+				for _, t := range toks {
+					r.Elems = append(r.Elems, Val{K: kTerm, Typ: strT, Sort: sStr, T: e.segsTerm(t), Segs: t})
+				}
+				return one(st, r)
+			}
+		}
+		ss := e.sortOfT(rt)
+		res := e.D.uf("strsplitn", []string{sStr, sStr, bvSort(64)}, ss, e.term(st, s), e.term(st, args[1]), e.term(st, args[2]))
+		st.define(tApp("bvuge", tApp("len_"+ss, res), bvLit(1, 64)))
+		return one(st, e.wrapTerm(rt, res))
 	}
 	intrinsicsByName["crypto/sha256.Sum256"] = func(e *Env, st *State, args []Val, rt types.Type, c *ssa.CallCommon) []Out {
 		e.trusted["sha256.Sum256: deterministic function with 32-byte result"]++
@@ -463,6 +559,22 @@ func (e *Env) unmarshalInto(st *State, bz Val, target Val) {
 	s := e.sortOfT(cur.Typ)
 	u := e.D.uf("spec_pbunmarshal_"+ifaceShortName(cur.Typ), []string{sStr}, s, e.term(st, bz))
 	e.store(st, inner.Ptr, e.wrapTerm(cur.Typ, u))
+}
+
+// knownNoSlash: the path condition contains noslash(t) (e.g. from a requires clause).
+func (e *Env) knownNoSlash(st *State, t string) bool {
+	want := e.noslash(t)
+	for _, p := range st.pc {
+		if p == want || strings.Contains(p, want) && strings.HasPrefix(p, "(and ") {
+			return true
+		}
+	}
+	for _, p := range st.defs {
+		if p == want {
+			return true
+		}
+	}
+	return false
 }
 
 // iterHavoc puts the iterator at an arbitrary position of its key range.
@@ -612,11 +724,12 @@ func (e *Env) stringerOf(t types.Type) *ssa.Function {
 }
 
 // stringsSplit models strings.Split(s, "/") on structured strings.
-func (e *Env) stringsSplit(st *State, args []Val, rt types.Type) Val {
+func (e *Env) stringsSplit(st *State, args []Val, rt types.Type) []Out {
 	sep, ok := e.litContent(e.term(st, args[1]))
 	s := args[0]
 	strT := types.Typ[types.String]
-	if ok && sep == "/" && s.Segs != nil {
+	if ok && len(sep) == 1 && s.Segs != nil {
+		sepByte := sep[0]
 		// tokenise: only when every variable piece is known to be free of '/' this is exact;
 		// the noslash facts are assumed through define-hypotheses recorded as path facts by callers.
 		var toks [][]Seg
@@ -626,7 +739,7 @@ func (e *Env) stringsSplit(st *State, args []Val, rt types.Type) Val {
 		for _, sg := range s.Segs {
 			switch sg.K {
 			case "lit":
-				parts := strings.Split(sg.Lit, "/")
+				parts := strings.Split(sg.Lit, sep)
 				for i, p := range parts {
 					if i > 0 {
 						toks = append(toks, cur)
@@ -635,12 +748,23 @@ func (e *Env) stringsSplit(st *State, args []Val, rt types.Type) Val {
 					cur = concatSegs(cur, litSegs(p))
 				}
 			case "dec":
+				if sepByte >= '0' && sepByte <= '9' || (sg.Sgn && sepByte == '-') {
+					exact = false
+				}
 				cur = append(cur, sg)
+			case "any":
+				// exact only when the piece is known to be free of the separator
+				if sepByte == '/' && e.knownNoSlash(st, sg.T) {
+					cur = append(cur, sg)
+				} else {
+					exact = false
+					cur = append(cur, sg)
+				}
 			case "be64":
 				// raw bytes may contain '/': the number of parts grows by one per 0x2F byte
 				for k := 0; k < 8; k++ {
 					hi := 63 - 8*k
-					sumTerms = append(sumTerms, tIte(tEq(fmt.Sprintf("((_ extract %d %d) %s)", hi, hi-7, sg.T), bvLit(0x2F, 8)), bvLit(1, 64), bvLit(0, 64)))
+					sumTerms = append(sumTerms, tIte(tEq(fmt.Sprintf("((_ extract %d %d) %s)", hi, hi-7, sg.T), bvLit(uint64(sepByte), 8)), bvLit(1, 64), bvLit(0, 64)))
 				}
 				cur = append(cur, sg)
 			default:
@@ -655,22 +779,29 @@ func (e *Env) stringsSplit(st *State, args []Val, rt types.Type) Val {
 				r.Elems = append(r.Elems, Val{K: kTerm, Typ: strT, Sort: sStr, T: e.segsTerm(t), Segs: t})
 			}
 			if len(sumTerms) == 0 {
-				return r
+				return one(st, r)
 			}
-			// symbolic number of parts: base + number of 0x2F bytes; elements known only when that number is 0
+			// raw bytes may equal the separator: case split.
+			// (A) none does: the parts are exactly the tokens; (B) some do: more parts, contents unknown.
 			extra := sumTerms[0]
 			for _, t := range sumTerms[1:] {
 				extra = tApp("bvadd", extra, t)
 			}
+			stA := st.clone()
+			stA.assume(tEq(extra, bvLit(0, 64)))
 			ss := e.sortOfT(rt)
 			res := e.D.fresh("split", ss)
 			n := tApp("bvadd", bvLit(uint64(len(toks)), 64), extra)
+			st.assume(tNot(tEq(extra, bvLit(0, 64))))
 			st.define(tEq(tApp("len_"+ss, res), n))
-			for i, el := range r.Elems {
-				st.define(tImplies(tEq(extra, bvLit(0, 64)), tEq(fmt.Sprintf("(select (arr_%s %s) %s)", ss, res, bvLit(uint64(i), 64)), e.term(st, el))))
+			var outs []Out
+			if !stA.dead {
+				outs = append(outs, Out{st: stA, res: r})
 			}
-			e.splitInfo[res] = &splitRec{toks: r.Elems, extra: extra}
-			return e.wrapTerm(rt, res)
+			if !st.dead {
+				outs = append(outs, Out{st: st, res: e.wrapTerm(rt, res)})
+			}
+			return outs
 		}
 	}
 	// opaque: at least one part
@@ -678,7 +809,7 @@ func (e *Env) stringsSplit(st *State, args []Val, rt types.Type) Val {
 	res := e.D.uf("strsplit", []string{sStr, sStr}, ss, e.term(st, s), e.term(st, args[1]))
 	st.define(tApp("bvuge", tApp("len_"+ss, res), bvLit(1, 64)))
 	st.define(tApp("bvult", tApp("len_"+ss, res), bvLit(1<<40, 64)))
-	return e.wrapTerm(rt, res)
+	return one(st, e.wrapTerm(rt, res))
 }
 
 type splitRec struct {
